@@ -34,6 +34,9 @@ Definition ID_ADDRESS : N := 1.
 Definition ID_REWARD_ADDRESS : N := 2.
 Definition ID_OUTPUT_MAP : N := 3.
 Definition ID_AUX_ALONZO : N := 4.
+Definition ID_VALUE_MA : N := 5.
+Definition ID_BIGNUM_BYTES : N := 6.
+Definition ID_CONSTR_GENERAL : N := 7.
 
 (* addresses travel as byte strings; [writer_form] restricts them to valid Shelley address bytes *)
 Definition AddressS := SNamed ID_ADDRESS (SBytes 29 57).
@@ -60,7 +63,7 @@ Definition ProtocolVersion := arr [U32; U32].
 Definition ExUnits := arr [U64; U64].
 Definition ExUnitPrices := arr [UnitInterval; UnitInterval].
 Definition Nonce := var [(0, []); (1, [H32])].
-Definition MIRToStakeCredentials := SMapOf 0 KBytewise Credential IntS.
+Definition MIRToStakeCredentials := SMapOf 0 KInsertion Credential IntS.   (* LinkedHashMap: insertion order *)
 Definition MoveInstantaneousReward :=
   arr [SUint 2; choice [(0, Coin); (5, MIRToStakeCredentials)]].
 
@@ -88,11 +91,14 @@ Definition Certificates := SSetOf Certificate.
 
 (* values and assets *)
 Definition AssetNameS := SBytes 0 32.
-Definition Assets := SMapOf 1 KBytewise AssetNameS Coin.
-Definition MultiAsset := SMapOf 1 KBytewise H28 Assets.
-Definition Value := choice [(0, Coin); (4, arr [Coin; MultiAsset])].
-Definition MintAssets := SMapOf 1 KBytewise AssetNameS IntS.
-Definition Mint := SMapOf 1 KInsertion H28 MintAssets.
+(* Assets / MultiAsset / MintAssets / Mint may be empty (stand-alone, and an empty Assets under a policy);
+   a Value is written with its multiasset iff some policy has a non-empty Assets ([writer_form]);
+   Mint is a Vec of pairs: `insert` appends, the same policy id may occur several times *)
+Definition Assets := SMapOf 0 KBytewise AssetNameS Coin.
+Definition MultiAsset := SMapOf 0 KBytewise H28 Assets.
+Definition Value := choice [(0, Coin); (4, SNamed ID_VALUE_MA (arr [Coin; MultiAsset]))].
+Definition MintAssets := SMapOf 0 KBytewise AssetNameS IntS.
+Definition Mint := SMapOf 0 KMulti H28 MintAssets.
 Definition Withdrawals := SMapOf 0 KInsertion RewardAddressS Coin.
 
 (* governance *)
@@ -150,12 +156,12 @@ Fixpoint PlutusData (d : nat) : schema :=
     let fields := SArrAny p in
     choice [(6, STagChoice (tag_run 121 7 fields (tag_run 1280 121 fields
                   (cl [(102, arr [U64; fields]); (2, SBBytes); (3, SBBytes)]))));
-            (5, SMapOf 0 KInsertion p p); (4, fields); (0, U64); (1, SNint); (2, SBBytes)]
+            (5, SMapOf 0 KMulti p p); (4, fields); (0, U64); (1, SNint); (2, SBBytes)]
   end.
 Definition PlutusList (d : nat) := SArrAny (PlutusData d).
 Definition WsPlutusList (d : nat) := STag 258 (SArrAny (PlutusData d)).
 Definition RedeemerTag := SUint 6.
-Definition RedeemersMap (d : nat) := SMapOf 0 KInsertion (arr [RedeemerTag; U64]) (arr [PlutusData d; ExUnits]).
+Definition RedeemersMap (d : nat) := SMapOf 0 KMulti (arr [RedeemerTag; U64]) (arr [PlutusData d; ExUnits]).   (* Vec: `add` appends *)
 Definition RedeemersArr (d : nat) := SArrOf 0 (arr [RedeemerTag; U64; PlutusData d; ExUnits]).
 Definition Redeemers (d : nat) := choice [(5, RedeemersMap d); (4, RedeemersArr d)].
 
@@ -183,7 +189,9 @@ Definition TransactionOutputLegacy := arr [AddressS; Value].
 Definition TransactionOutputLegacyDH := arr [AddressS; Value; H32].
 Definition TransactionOutputMap (d : nat) :=
   SNamed ID_OUTPUT_MAP (mapS [(0, Req, AddressS); (1, Req, Value); (2, Opt, DataOption d); (3, Opt, ScriptRef d)]).
-Definition TransactionOutput (d : nat) := choice [(4, TransactionOutputLegacy); (5, TransactionOutputMap d)].
+(* legacy array form, with or without the data hash as third item; post-Alonzo map form *)
+Definition TransactionOutputArr := SArrOpt (sl [AddressS; Value]) H32.
+Definition TransactionOutput (d : nat) := choice [(4, TransactionOutputArr); (5, TransactionOutputMap d)].
 Definition TransactionOutputs (d : nat) := SArrOf 0 (TransactionOutput d).
 
 Definition TransactionBody (d : nat) := mapS [
@@ -196,7 +204,8 @@ Definition TransactionBody (d : nat) := mapS [
 (* witnesses *)
 Definition Vkeywitness := arr [H32; SBytes 64 64].
 Definition Vkeywitnesses := SSetOf Vkeywitness.
-Definition BootstrapWitness := arr [H32; SBytes 64 64; H32; SBytes 0 18446744073709551615].
+(* the chain code is read and written as a byte string of any length (BootstrapWitness::new takes any Vec<u8>) *)
+Definition BootstrapWitness := arr [H32; SBytes 64 64; SBytes 0 18446744073709551615; SBytes 0 18446744073709551615].
 Definition BootstrapWitnesses := SSetOf BootstrapWitness.
 Definition TransactionWitnessSet (d : nat) := mapS [
   (0, OptNE, Vkeywitnesses); (1, OptNE, WsNativeScripts d); (2, OptNE, BootstrapWitnesses);
@@ -219,13 +228,18 @@ Definition HeaderBody := HeaderBodyTPraos.
 Definition Header := arr [HeaderBody; SBytes 448 448].
 Definition HeaderPraos := arr [HeaderBodyPraos; SBytes 448 448].
 Definition Block (d : nat) := arr [Header; SArrOf 0 (TransactionBody d); SArrOf 0 (TransactionWitnessSet d);
-                                   SMapOf 0 KBytewise U32 (AuxiliaryData d); SArrOf 0 U32].
+                                   SMapOf 0 KInsertion U32 (AuxiliaryData d); SArrOf 0 U32].   (* LinkedHashMap *)
+Definition BlockPraos (d : nat) := arr [HeaderPraos; SArrOf 0 (TransactionBody d); SArrOf 0 (TransactionWitnessSet d);
+                                        SMapOf 0 KInsertion U32 (AuxiliaryData d); SArrOf 0 U32].
 
 (* The image of the library's writers inside the schema-valid values, where a constraint spans several
    fields or concerns byte content (used by the judge to delimit "values built through the API"):
    - an address is valid Shelley address bytes (header nibble consistent with the length);
    - the map form of an output is only written when it has an inline datum or a script reference;
-   - in Alonzo-format auxiliary data the Plutus V1 list (key 2) is written whenever any Plutus script list is. *)
+   - in Alonzo-format auxiliary data the Plutus V1 list (key 2) is written whenever any Plutus script list is;
+   - a Value is written as [coin, multiasset] only when some policy of the multiasset has a non-empty Assets;
+   - a stand-alone BigInt uses the bignum tags only for 9 or more bytes without a leading zero;
+   - a stand-alone ConstrPlutusData uses the general form (tag 102) only for alternatives above 127. *)
 Definition writer_form (id : N) (v : val) : bool :=
   if id =? ID_ADDRESS then
     match v with
@@ -249,6 +263,21 @@ Definition writer_form (id : N) (v : val) : bool :=
         | _, Some _ => true
         | _, _ => false
         end
+    | _ => false
+    end
+  else if id =? ID_VALUE_MA then
+    match v with
+    | VList [_; VMap l] => existsb (fun kv => match snd kv with VMap (_ :: _) => true | _ => false end) l
+    | _ => false
+    end
+  else if id =? ID_BIGNUM_BYTES then
+    match v with
+    | VBytes (h :: t) => negb (h =? 0) && (8 <=? N.of_nat (length t))
+    | _ => false
+    end
+  else if id =? ID_CONSTR_GENERAL then
+    match v with
+    | VList (VNat alt :: _) => 128 <=? alt
     | _ => false
     end
   else if id =? ID_AUX_ALONZO then
@@ -276,3 +305,80 @@ Definition ledger_schemas (d : nat) : list schema := [
   TransactionOutputs d; TransactionBody d; Vkeywitness; Vkeywitnesses; BootstrapWitness; BootstrapWitnesses;
   TransactionWitnessSet d; Transaction d; VRFCert; OperationalCert; HeaderBody; Header; Block d; IntS;
   WsNativeScripts d; WsPlutusScripts; WsPlutusList d; HeaderBodyPraos; HeaderPraos].
+
+(* ---- stand-alone forms of the members of the variant types and further public types with to_bytes/from_bytes ---- *)
+Definition StakeRegistration := var [(0, [Credential]); (7, [Credential; Coin])].
+Definition StakeDeregistration := var [(1, [Credential]); (8, [Credential; Coin])].
+Definition StakeDelegation := var [(2, [Credential; H28])].
+Definition PoolParams := arr [H28; H32; Coin; Coin; UnitInterval; RewardAddressS; Ed25519KeyHashes; Relays; SNullable PoolMetadata].
+Definition PoolRegistration :=
+  var [(3, [H28; H32; Coin; Coin; UnitInterval; RewardAddressS; Ed25519KeyHashes; Relays; SNullable PoolMetadata])].
+Definition PoolRetirement := var [(4, [H28; U32])].
+Definition GenesisKeyDelegation := var [(5, [H28; H28; H32])].
+Definition MoveInstantaneousRewardsCert := var [(6, [MoveInstantaneousReward])].
+Definition VoteDelegation := var [(9, [Credential; DRep])].
+Definition StakeAndVoteDelegation := var [(10, [Credential; H28; DRep])].
+Definition StakeRegistrationAndDelegation := var [(11, [Credential; H28; Coin])].
+Definition VoteRegistrationAndDelegation := var [(12, [Credential; DRep; Coin])].
+Definition StakeVoteRegistrationAndDelegation := var [(13, [Credential; H28; DRep; Coin])].
+Definition CommitteeHotAuth := var [(14, [Credential; Credential])].
+Definition CommitteeColdResign := var [(15, [Credential; SNullable Anchor])].
+Definition DRepRegistration := var [(16, [Credential; Coin; SNullable Anchor])].
+Definition DRepDeregistration := var [(17, [Credential; Coin])].
+Definition DRepUpdate := var [(18, [Credential; SNullable Anchor])].
+Definition SingleHostAddr := var [(0, [SNullable U16; SNullable Ipv4; SNullable Ipv6])].
+Definition SingleHostName := var [(1, [SNullable U16; DNSName])].
+Definition MultiHostName := var [(2, [DNSName])].
+Definition Committee := arr [SMapOf 0 KBytewise Credential U32; UnitInterval].
+Definition ParameterChangeAction := var [(0, [SNullable GovernanceActionId; ProtocolParamUpdate; SNullable H28])].
+Definition HardForkInitiationAction := var [(1, [SNullable GovernanceActionId; ProtocolVersion])].
+Definition TreasuryWithdrawalsAction := var [(2, [TreasuryWithdrawals; SNullable H28])].
+Definition NoConfidenceAction := var [(3, [SNullable GovernanceActionId])].
+Definition UpdateCommitteeAction :=
+  var [(4, [SNullable GovernanceActionId; Credentials; SMapOf 0 KBytewise Credential U32; UnitInterval])].
+Definition NewConstitutionAction := var [(5, [SNullable GovernanceActionId; Constitution])].
+Definition MetadataList (d : nat) := SArrOf 0 (Metadatum d).
+Definition MetadataMap (d : nat) := SMapOf 0 KInsertion (Metadatum d) (Metadatum d).
+Definition PlutusMap (d : nat) := SMapOf 0 KMulti (PlutusData d) (PlutusData d).
+(* stand-alone (no original bytes are kept): the general form is written only for alternatives above 127 *)
+Definition ConstrPlutusData (d : nat) :=
+  let fields := SArrAny (PlutusData d) in
+  STagChoice (tag_run 121 7 fields (tag_run 1280 121 fields (cl [(102, SNamed ID_CONSTR_GENERAL (arr [U64; fields]))]))).
+(* stand-alone BigInt: the bignum tags are written only outside the 64-bit heads, minimal big-endian bytes *)
+Definition BigInt := choice [(6, STagChoice (cl [(2, SNamed ID_BIGNUM_BYTES SBBytes); (3, SNamed ID_BIGNUM_BYTES SBBytes)]));
+                             (0, U64); (1, SNint)].
+Definition Redeemer (d : nat) := arr [RedeemerTag; U64; PlutusData d; ExUnits].
+Definition Language := SUint 3.
+Definition CostModel := SArrOf 0 IntS.
+Definition NetworkId := SUint 2.
+Definition Vkey := H32.
+Definition TransactionBodies (d : nat) := SArrOf 0 (TransactionBody d).
+Definition TransactionWitnessSets (d : nat) := SArrOf 0 (TransactionWitnessSet d).
+Definition TransactionUnspentOutput (d : nat) := arr [TransactionInput; TransactionOutput d].
+
+Definition ScriptPubkey := var [(0, [H28])].
+Definition ScriptAll (d : nat) := var [(1, [SArrOf 0 (NativeScript d)])].
+Definition ScriptAny (d : nat) := var [(2, [SArrOf 0 (NativeScript d)])].
+Definition ScriptNOfK (d : nat) := var [(3, [U32; SArrOf 0 (NativeScript d)])].
+Definition TimelockStart := var [(4, [U64])].
+Definition TimelockExpiry := var [(5, [U64])].
+Definition AssetNames := SArrOf 0 AssetNameS.
+Definition GenesisHashes := SArrOf 0 H28.
+Definition ScriptHashes := SArrOf 0 H28.
+Definition RewardAddresses := SArrOf 0 RewardAddressS.
+Definition TransactionMetadatumLabels := SArrOf 0 U64.
+Definition BigNum := U64.
+Definition VersionedBlock (d : nat) := arr [U32; BlockPraos d].
+
+Definition ledger_schemas_more (d : nat) : list schema := [
+  BlockPraos d; StakeRegistration; StakeDeregistration; StakeDelegation; PoolParams; PoolRegistration; PoolRetirement;
+  GenesisKeyDelegation; MoveInstantaneousRewardsCert; VoteDelegation; StakeAndVoteDelegation;
+  StakeRegistrationAndDelegation; VoteRegistrationAndDelegation; StakeVoteRegistrationAndDelegation;
+  CommitteeHotAuth; CommitteeColdResign; DRepRegistration; DRepDeregistration; DRepUpdate;
+  SingleHostAddr; SingleHostName; MultiHostName; Ipv4; Ipv6; URL; DNSName; Committee;
+  ParameterChangeAction; HardForkInitiationAction; TreasuryWithdrawalsAction; NoConfidenceAction;
+  UpdateCommitteeAction; NewConstitutionAction; MetadataList d; MetadataMap d; PlutusMap d; ConstrPlutusData d;
+  BigInt; Redeemer d; RedeemerTag; Language; CostModel; NetworkId; Vkey; AssetNameS; PlutusScriptBytes;
+  MIRToStakeCredentials; TransactionBodies d; TransactionWitnessSets d; TransactionUnspentOutput d;
+  ScriptPubkey; ScriptAll d; ScriptAny d; ScriptNOfK d; TimelockStart; TimelockExpiry; AssetNames; GenesisHashes;
+  ScriptHashes; RewardAddresses; TransactionMetadatumLabels; BigNum; VersionedBlock d].
